@@ -27,6 +27,9 @@ ENCS = [("A128CBC-HS256", 128, 256, "cbc"), ("A192CBC-HS384", 128, 384, "cbc"), 
         ("A128GCM", 96, 128, "gcm"), ("A192GCM", 96, 192, "gcm"), ("A256GCM", 96, 256, "gcm"), ("C20P", 96, 256, "chacha"), ("XC20P", 192, 256, "chacha")]
 CURVES = ["P-256", "P-384", "P-521", "secp256k1", "X25519", "X448"]
 DIRECT = {"dir", "ECDH-ES", "ECDH-1PU"}
+import os
+CURVE_SET = (0, 1, 2, 3, 4, 5) if os.environ.get("VERIF_TIER") == "thorough" else (0, 4)     # quick: P-256 and X25519
+ENC_SET = tuple(range(8)) if os.environ.get("VERIF_TIER") == "thorough" else (0, 3, 6)            # quick: one enc per class
 ALL_NAMES = ALGS + [e[0] for e in ENCS] + ["DEF"]
 
 
@@ -160,45 +163,45 @@ def _roundtrip(alg_i, enc_i, curve_i, ser, has_zip, pt, aad, apu, hdr_where, key
     if fb is not None:
         return st == "encrypt_failed" and isinstance(out, fb)
     if st != "ok":
-        return False
+        return rt.why('_roundtrip#1')
     if out.plaintext != pt:
-        return False
+        return rt.why('_roundtrip#2')
     alg = info["alg"]
     add = added_members(alg)
     kid_added = {"kid"} if keyset else set()
     if ser == 0:
         got = dict(out.protected)
         if {k: v for k, v in got.items() if k not in add | kid_added} != info["given"]:
-            return False
+            return rt.why('_roundtrip#3')
         if not add <= set(got) or (keyset and got.get("kid") not in ("r1", "r2")):
-            return False
+            return rt.why('_roundtrip#4')
     else:
         g = info["given"]
         if dict(out.protected) != g["protected"] and {k: v for k, v in out.protected.items() if k not in add} != g["protected"]:
-            return False
+            return rt.why('_roundtrip#5')
         if (out.unprotected or {}) != g["unprotected"]:
-            return False
+            return rt.why('_roundtrip#6')
         rh = dict(out.recipients[0].header or {})
         if {k: v for k, v in rh.items() if k not in add | kid_added} != g["header"]:
-            return False
+            return rt.why('_roundtrip#7')
         merged = out.recipients[0].headers()
         if not add <= set(merged):
-            return False
+            return rt.why('_roundtrip#8')
         if aad is not None and out.aad != aad and aad:
-            return False
+            return rt.why('_roundtrip#9')
     if keyset:
         ch = info["choice"]
         if len(ch.calls) != 1 or [k.kid for k in ch.calls[0]] != ["r1", "r2"]:
-            return False
+            return rt.why('_roundtrip#10')
     # C12: the epk header and everything else that was encoded is free of private material
     merged = out.recipients[0].headers() if ser else out.protected
     if "epk" in merged and any(m in merged["epk"] for m in ice.PRIVATE_NAMES):
-        return False
+        return rt.why('_roundtrip#11')
     if not keyset and not conformance(env, info, ser, pt, aad if ser else None, has_zip, apu):
-        return False
+        return rt.why('_roundtrip#12')
     key = info["key"]
     if ice.leak_scan(env, info["tok"], [key.raw_value] if key.key_type == "oct" else [], ["r1", "r2", "zz", "snd"] + ["gen%d" % i for i in range(8)]):
-        return False
+        return rt.why('_roundtrip#13')
     return fresh_ok(env, info, 1)
 
 
@@ -227,56 +230,56 @@ def conformance(env, info, ser, pt, aad, has_zip, apu):
         pseg = tok["protected"].encode()
         want_aad = pseg + ((b"." + tok["aad"].encode()) if aad else b"")
         if bool(aad) != ("aad" in tok):
-            return False
+            return rt.why('_roundtrip#14')
         if aad and env.b64decode(tok["aad"].encode()) != aad:
-            return False
+            return rt.why('_roundtrip#15')
         ivseg, ctseg, tagseg = tok["iv"].encode(), tok["ciphertext"].encode(), tok["tag"].encode()
     # the protected segment is the b64 of the compact, ASCII JSON of the protected header
     ptext = env.b64decode(pseg)
     dumped = [i for i, (v, t) in enumerate(env.js_made) if t.encode() == ptext]
     if len(dumped) != 1:
-        return False
+        return rt.why('_roundtrip#16')
     kw = env.dumps_kwargs
     if not any(k.get("separators") == (",", ":") and k.get("ensure_ascii", True) is True for k in kw):
-        return False
+        return rt.why('_roundtrip#17')
     enc_calls = [c for c in calls if c["kind"] in ("gcm_encrypt", "cbc_encrypt", "chacha_encrypt") and not (c["kind"] == "gcm_encrypt" and c["aad"] is None)][:1]
     if len(enc_calls) != 1:
-        return False
+        return rt.why('_roundtrip#18')
     e = enc_calls[0]
     body = pt
     if has_zip:
         zs = env.of("zcompress")
         if len(zs) != 1 or zs[0]["data"] != pt:
-            return False
+            return rt.why('_roundtrip#19')
         body = zs[0]["body"]                 # raw DEFLATE: zlib header (2) and Adler-32 (4) stripped
     if e["pt"] != body or env.b64decode(ivseg) != e["iv"] or env.b64decode(ctseg) != e["ct"]:
-        return False
+        return rt.why('_roundtrip#20')
     cek = e["key"] if kind != "cbc" else None
     if kind == "cbc":
         macs = [c for c in calls if c["kind"] == "hmac"]
         if len(macs) < 1:
-            return False
+            return rt.why('_roundtrip#21')
         m = macs[0]
         n = info["cekbits"] // 16
         al = (8 * len(want_aad)).to_bytes(8, "big")
         if m["hash"] != HASH_OF_ENC[encname] or m["msg"] != want_aad + e["iv"] + e["ct"] + al:
-            return False
+            return rt.why('_roundtrip#22')
         tag = env.b64decode(tagseg)
         if tag != ice.mac_tag(m["hash"], m["key"], m["msg"])[:n]:
-            return False
+            return rt.why('_roundtrip#23')
         # key split: MAC key first, encryption key second, both halves of ONE cek
         mk, ek_ = m["key"], e["key"]
         if len(mk) != n or len(ek_) != n:
-            return False
+            return rt.why('_roundtrip#24')
         if isinstance(mk, bytes) and isinstance(ek_, bytes):
             cek = mk + ek_
         else:
             if getattr(mk, "cut", None) is None or mk.cut[1:] != (0, n) or ek_.cut[1:] != (n, 2 * n) or mk.parts != ek_.parts:
-                return False
+                return rt.why('_roundtrip#25')
             cek = None
     else:
         if e["aad"] != want_aad or env.b64decode(tagseg) != e["tag"]:
-            return False
+            return rt.why('_roundtrip#26')
     # ---- key management operands
     hdr = {}
     if ser == 0:
@@ -289,7 +292,7 @@ def conformance(env, info, ser, pt, aad, has_zip, apu):
         hdr.update(r0.get("header") or {})
         ek = env.b64decode(r0["encrypted_key"].encode()) if r0.get("encrypted_key") else b""
     if alg in DIRECT and ek:
-        return False
+        return rt.why('_roundtrip#27')
     if alg == "dir":
         return cek is None or cek == key.raw_value
     if alg in RSA_PAD:
@@ -298,7 +301,7 @@ def conformance(env, info, ser, pt, aad, has_zip, apu):
     if alg[0] == "A" and alg.endswith("GCMKW"):
         ks = [c for c in calls if c["kind"] == "gcm_encrypt" and c["aad"] is None]
         if len(ks) != 1 or ks[0]["key"] != key.raw_value or ks[0]["ct"] != ek or (cek is not None and ks[0]["pt"] != cek):
-            return False
+            return rt.why('_roundtrip#28')
         return len(ks[0]["iv"]) == 12 and env.b64decode(hdr["iv"].encode()) == ks[0]["iv"] and env.b64decode(hdr["tag"].encode()) == ks[0]["tag"]
     ws = env.of("wrap")
     if alg[0] == "A" and alg.endswith("KW"):
@@ -307,7 +310,7 @@ def conformance(env, info, ser, pt, aad, has_zip, apu):
         ps = env.of("pbkdf2")
         h, n = PBES2[alg]
         if len(ps) < 1 or len(ws) != 1:         # (the consumer side of the round trip derives the key a second time)
-            return False
+            return rt.why('_roundtrip#29')
         p = ps[0]
         salt_in = env.b64decode(hdr["p2s"].encode())
         return p["hash"] == h and p["length"] == n and p["salt"] == alg.encode() + b"\x00" + salt_in and p["iterations"] == hdr["p2c"] and \
@@ -316,11 +319,11 @@ def conformance(env, info, ser, pt, aad, has_zip, apu):
     ks = env.of("concatkdf")
     xs = [x for x in env.of("exchange")][: (2 if alg.startswith("ECDH-1PU") else 1)]
     if len(ks) < 1:
-        return False
+        return rt.why('_roundtrip#30')
     k = ks[0]
     gen = [d for d in env.draws[:n_draws] if d["source"] in ("ec.generate_private_key", "okp.generate")]
     if len(gen) != 1:
-        return False
+        return rt.why('_roundtrip#31')
     ze = ice.Opaque("ecdh", frozenset([gen[0]["value"], "r1"]))
     if alg.startswith("ECDH-1PU"):
         zs = ice.Opaque("ecdh", frozenset(["snd", "r1"]))
@@ -335,12 +338,12 @@ def conformance(env, info, ser, pt, aad, has_zip, apu):
     info_bytes = lp(name.encode()) + lp(pu) + lp(pv) + bits.to_bytes(4, "big")
     if alg.startswith("ECDH-1PU") and not direct:
         tagv = env.b64decode(tagseg)
-        info_bytes += lp(bytes(tagv))
+        info_bytes += lp(tagv.octets(env) if isinstance(tagv, ice.Sized) else bytes(tagv))
     if k["hash"] != "sha256" or k["length"] != bits // 8 or k["z"] != want_z or k["otherinfo"] != info_bytes:
-        return False
+        return rt.why('_roundtrip#32')
     epk = hdr.get("epk")
     if not isinstance(epk, dict) or epk.get("crv") != key.curve_name:
-        return False
+        return rt.why('_roundtrip#33')
     if direct:
         return True
     return len(ws) == 1 and ws[0]["key"] == k["out"] and ws[0]["out"] == ek
@@ -398,9 +401,26 @@ def roundtrip(alg_i: int, enc_i: int, curve_i: int, ser: int, has_zip: bool, pt:
     return _roundtrip(alg_i, enc_i, curve_i, ser, has_zip, pt, aad, apu, hdr_where, keyset, pick)
 
 
+def roundtrip_layout(alg_i: int, enc_i: int, curve_i: int, ser: int, pt: bytes, aad: Optional[bytes], hdr_where: int) -> bool:
+    """
+    PRE: 0 <= alg_i < 21 and 0 <= enc_i < 8 and curve_i in CURVE_SET and 0 <= ser <= 2 and len(pt) <= 1 and (aad is None or len(aad) <= 1)
+    PRE: 0 <= hdr_where <= 2
+    POST: _
+    """
+    return _roundtrip(alg_i, enc_i, curve_i, ser, False, pt, aad, False, hdr_where, False, 0)
+
+
+def roundtrip_options(alg_i: int, enc_i: int, curve_i: int, ser: int, has_zip: bool, apu: bool, keyset: bool, pick: int) -> bool:
+    """
+    PRE: 0 <= alg_i < 21 and 0 <= enc_i < 8 and curve_i in CURVE_SET and 0 <= ser <= 2 and 0 <= pick <= 1
+    POST: _
+    """
+    return _roundtrip(alg_i, enc_i, curve_i, ser, has_zip, b"pt", b"ad" if ser else None, apu, 0, keyset, pick)
+
+
 def two_recipients(alg_i: int, alg2_i: int, enc_i: int, pt: bytes, aad: Optional[bytes]) -> bool:
     """
-    PRE: 0 <= alg_i < 21 and 0 <= alg2_i < 21 and 0 <= enc_i < 8 and len(pt) <= 1 and (aad is None or len(aad) <= 1)
+    PRE: 0 <= alg_i < 21 and 0 <= alg2_i < 21 and enc_i in (0, 3) and len(pt) == 0 and aad is None
     POST: _
     """
     rt.tick()
@@ -421,7 +441,7 @@ def two_recipients(alg_i: int, alg2_i: int, enc_i: int, pt: bytes, aad: Optional
 
 def two_messages(alg_i: int, enc_i: int, curve_i: int, ser: int) -> bool:
     """
-    PRE: 0 <= alg_i < 21 and 0 <= enc_i < 8 and 0 <= curve_i < 6 and 0 <= ser <= 2
+    PRE: 0 <= alg_i < 21 and enc_i in ENC_SET and curve_i in CURVE_SET and 0 <= ser <= 2
     POST: _
     """
     rt.tick()
@@ -475,7 +495,13 @@ def replay(func, call):
     hdr_where = pick = 0
     aad = None
     curve_i = 0
-    if func == "roundtrip":
+    if func == "roundtrip_layout":
+        alg_i, enc_i, curve_i, ser, pt, aad, hdr_where = args
+        func = "roundtrip"
+    elif func == "roundtrip_options":
+        alg_i, enc_i, curve_i, ser, has_zip, apu, keyset, pick = args
+        pt, aad, func = b"pt", (b"ad" if ser else None), "roundtrip"
+    elif func == "roundtrip":
         alg_i, enc_i, curve_i, ser, has_zip, pt, aad, apu, hdr_where, keyset, pick = args
     elif func == "two_recipients":
         alg_i, alg2_i, enc_i, pt, aad = args
